@@ -53,6 +53,17 @@ def run_dqn_family(ctx, which, K, start, symbolic=("batch_size", "total_episodes
         nnx=W.NnxShim(w, env), trange=W.trange_stub, jax=W.JaxShim("rolls" in symbolic),
     )
     jshim = names["jax"]
+    if "schedule" in symbolic:
+        # exploration schedule as an arbitrary array of probabilities (one fresh symbol per absolute step): tiny budgets
+        # make the real linear schedule constant, which would hide WHICH entry a loop reads
+        def sched_stub(total_timesteps, *a, **k):
+            n_call = len(getattr(w, "schedule_calls", []))
+            w.schedule_calls = getattr(w, "schedule_calls", []) + [(total_timesteps, a, k)]
+            sched = [sym_real(f"sched{n_call}_{i}", 0, 1) for i in range(int(total_timesteps))]
+            if not a and not k:  # the exploration schedule is the call with the default start/end/fraction
+                w.schedule_eps = sched
+            return sched
+        names["linear_schedule"] = sched_stub
     kwargs = dict(batch_size=cfg["batch_size"], total_timesteps=total, seed=1, logger=None, global_step=start, progress_bar=False)
     if which != "dqn":
         cfg["update_frequency"] = _param("update_frequency", symbolic, 1, 3, 1)
